@@ -166,6 +166,12 @@ def actorViolations (pre : State) (op : Op) : List String :=
     match pre.getOrder oid with
     | some o => if p = o.provider && nodeActs pre c p then [] else [s!"ready-order{oid}-by{c}"]
     | none => []
+  -- every other message with a creator / provider pair: the sender is the node it names or one of the addresses that
+  -- node registered — not a node that merely lists the named one among its own addresses
+  | .migrate c p _ => if nodeActs pre c p then [] else [s!"migrate-by{c}-naming{p}"]
+  | .terminate c p _ _ _ _ => if nodeActs pre c p then [] else [s!"terminate-by{c}-naming{p}"]
+  | .perm c p _ _ _ _ _ => if nodeActs pre c p then [] else [s!"perm-by{c}-naming{p}"]
+  | .renew c p _ _ _ _ _ => if nodeActs pre c p then [] else [s!"renew-by{c}-naming{p}"]
   | _ => []
 
 /-- the orders an accepted Renew creates belong to — and are therefore charged to — the DID that signed it -/
@@ -275,7 +281,11 @@ def checkStep (e : Env) (pre : Sys) (op : Op) (res : Res) (post : Sys) (origin :
                      else (match post.st.getMeta o.dataId with
                            | some m' => m'.status = MetaComplete && m'.commits = m.commits && some m'.commit = (m.commits.getLast?.map commitFromVersion) &&
                                         -- … and points at the order it pointed at before the update: the last one the model lists
-                                        (m.orders.getLast?.isNone || some m'.orderId = m.orders.getLast?)
+                                        (m.orders.getLast?.isNone || some m'.orderId = m.orders.getLast?) &&
+                                        -- … and names the content of that version again, not the abandoned update's
+                                        (match m.orders.getLast?.bind post.st.getOrder with
+                                         | some lo => m'.cid = lo.cid
+                                         | none => true)
                            | none => false)
        if refunded && shardsGone && metaOk then none
        else some ("C05", s!"clause=cleanRefund cls=none rec=order{o.id}:refund={refunded},shards={shardsGone},meta={metaOk}"))
@@ -412,6 +422,22 @@ def checkStep (e : Env) (pre : Sys) (op : Op) (res : Res) (post : Sys) (origin :
       | some p => if 0 ≤ p.reward && p.reward < precision then [] else [("C08", s!"clause=claimLeavesFraction cls=none rec=sp{c}:{p.reward}")]
       | none => [])
    | _, _ => []) ++
+  -- C08: whenever a provider's accrued reward or capacity changes, its reward debt is re-based on the accumulator at the
+  -- new capacity — what was accrued and credited is never credited a second time (fault recovery zeroes both by design)
+  (match op with
+   | .recover .. => []
+   | .genesis => []
+   | _ =>
+     if res = .ok then
+       (match post.st.pool with
+        | some pool' => post.st.pledges.filterMap (fun p' =>
+            let rebased := p'.rewardDebt = Dec.mulInt pool'.accRewardPerByte p'.totalStorage
+            match pre.st.getPledge p'.creator with
+            | some p => if (p'.reward ≠ p.reward || p'.totalStorage ≠ p.totalStorage) && !rebased
+                        then some ("C08", s!"clause=rewardDebtRebased cls=none rec=sp{p'.creator}") else none
+            | none => if !rebased then some ("C08", s!"clause=rewardDebtRebased cls=none rec=sp{p'.creator}:new") else none)
+        | none => [])
+     else []) ++
   -- C04: what a termination, cancellation or force-push settlement pays back to a client never exceeds
   -- what the orders that end in that step were charged
   (let refundOps := match op with
